@@ -204,7 +204,7 @@ func runC06(e *Env) {
 		"only the literal route '/*' is a fallback route",
 		"InterceptAll(p): the outcome of every request must equal the model's outcome for a request of p",
 	}
-	e.RunCases("tables", e.N(2500, 120000), 0, c06Case)
+	e.RunCases("tables", e.N(2500, 400000), 0, c06Case)
 	e.Require("stage.head-get", 100)
 	e.Require("stage.fallback", 100)
 	e.Require("stage.not-allowed", 100)
